@@ -154,6 +154,32 @@ func text(r *prng, n int, class int) string {
 	return sb.String()
 }
 
+// readerHints adds, to a task-private hint map, the optional hints an
+// application may pass to any reader (character set for byte content without
+// ECI, try-harder, also-inverted, GS1). base may be nil.
+func readerHints(r *prng, base map[gozxing.DecodeHintType]interface{}) map[gozxing.DecodeHintType]interface{} {
+	if r.intn(2) == 0 {
+		return base
+	}
+	h := map[gozxing.DecodeHintType]interface{}{}
+	for k, v := range base {
+		h[k] = v
+	}
+	if r.intn(2) == 0 {
+		h[gozxing.DecodeHintType_CHARACTER_SET] = []string{"UTF-8", "ISO-8859-1", "Shift_JIS", "windows-1251", "ISO-8859-5", "Cp1252", "GB18030", "EUC_KR"}[r.intn(8)]
+	}
+	if r.intn(3) == 0 {
+		h[gozxing.DecodeHintType_TRY_HARDER] = true
+	}
+	if r.intn(3) == 0 {
+		h[gozxing.DecodeHintType_ALSO_INVERTED] = true
+	}
+	if r.intn(4) == 0 {
+		h[gozxing.DecodeHintType_ASSUME_GS1] = true
+	}
+	return h
+}
+
 func digits(r *prng, n int) string { return text(r, n, 0) }
 
 var ecLevels = []decoder.ErrorCorrectionLevel{decoder.ErrorCorrectionLevel_L, decoder.ErrorCorrectionLevel_M, decoder.ErrorCorrectionLevel_Q, decoder.ErrorCorrectionLevel_H}
@@ -238,7 +264,7 @@ func runOp(in *instances, op OpSpec) (d string) {
 		if r.intn(2) == 0 {
 			dh = map[gozxing.DecodeHintType]interface{}{gozxing.DecodeHintType_PURE_BARCODE: true}
 		}
-		res, err := in.qrr.Decode(bmp, dh)
+		res, err := in.qrr.Decode(bmp, readerHints(r, dh))
 		return digestMatrix(m, nil) + " | " + digestResult(res, err)
 	case "qreci":
 		// QR round trip in one given registered character set (P selects it):
@@ -294,7 +320,7 @@ func runOp(in *instances, op OpSpec) (d string) {
 		if r.intn(2) == 0 {
 			dh = map[gozxing.DecodeHintType]interface{}{gozxing.DecodeHintType_PURE_BARCODE: true}
 		}
-		res, err := in.dmr.Decode(bmp, dh)
+		res, err := in.dmr.Decode(bmp, readerHints(r, dh))
 		return digestMatrix(m, nil) + " | " + digestResult(res, err)
 	case "ean13", "ean8", "upca", "upce", "code39", "code93", "code128", "itf", "codabar":
 		w, rd, format, content := oneD(in, op.K, r)
@@ -401,7 +427,7 @@ func runOp(in *instances, op OpSpec) (d string) {
 			return "load " + err.Error()
 		}
 		bmp, _ := gozxing.NewBinaryBitmapFromImage(img)
-		res, err := in.az.Decode(bmp, nil)
+		res, err := in.az.Decode(bmp, readerHints(r, nil))
 		return digestResult(res, err)
 	case "rssimg", "photo":
 		// sample photographs shipped with the repository (RSS-14 symbols, which
